@@ -24,7 +24,7 @@ CRASHY = False
 RUN_TIMEOUT = 300
 NO_SHRINK = {'program', 'prog', 'dim'}
 POOL_SEED = 20250927
-NPROG = {'quick': 10, 'thorough': 120}
+NPROG = {'quick': 12, 'thorough': 120}
 
 PROPS = {
     'C03': dict(
@@ -106,7 +106,37 @@ def _move_group(t, arrays):
                 eqs=[['TMove', t.choice(arrays), None, 0.0]])
 
 
+def _g(**kw):
+    g = dict(label='L0', real=1, update_nnps=0, iterate=0, min=0, max=1, pre=0, post=0, cond=0, start=0, stop=None, sub=None, eqs=[])
+    g.update(kw)
+    return g
+
+
+# a few hand-written programs at the head of the pool: combinations a small random pool may not contain
+HANDCRAFTED = [
+    # two iterated groups, the first with min_iterations > 0, the second with the default 0 (iteration state must not leak)
+    dict(arrays=['f'], env=dict(thresh=[0.0, 0.0]), groups=[
+        _g(iterate=1, min=3, max=5, pre=1, eqs=[['TInit', 'f', None, 2.0], ['TConv', 'f', None, 1.0]]),
+        _g(label='L1', iterate=1, min=0, max=4, pre=1, post=1, eqs=[['TPost', 'f', None, 3.0], ['TConv', 'f', None, 2.0]]),
+        _g(label='L2', iterate=1, min=2, max=2, eqs=[['TInit', 'f', None, 4.0], ['TConv', 'f', None, 3.0]])]),
+    # numeric stop_idx reaching into the ghost particles with real=True; numeric start in the next group, default after it
+    dict(arrays=['f', 'g'], env=dict(n=4, nghost=4), groups=[
+        _g(stop=6, eqs=[['TInit', 'f', None, 1.0], ['TLoop', 'f', ['f', 'g'], 2.0], ['TPost', 'f', None, 3.0]]),
+        _g(label='L1', start=2, stop=7, real=1, eqs=[['TFull', 'g', ['f'], 2.0]]),
+        _g(label='L2', eqs=[['TReduce', 'f', None, 1.0], ['TPyInit', 'g', None, 2.0]])]),
+    # named start/stop, real=False, several destinations and a conditional sub-group under an iterated conditional parent
+    dict(arrays=['f', 'g'], groups=[
+        _g(real=0, start='c_start', stop='c_stop', eqs=[['TInitPair', 'f', ['g', 'f'], 1.0], ['TLoopAll', 'g', ['f'], 2.0], ['TPost', 'g', None, 1.0]]),
+        _g(label='L1', iterate=1, min=1, max=3, cond=1, pre=1, post=1, update_nnps=1, sub=[
+            _g(label='La', cond=1, pre=1, eqs=[['TInit', 'f', None, 5.0], ['TLoopNoSrc', 'f', None, 1.0]]),
+            _g(label='Lb', post=1, real=0, eqs=[['TFull', 'g', ['g', 'f'], 3.0], ['TConv', 'g', None, 1.0]])])]),
+]
+
+
 def program(pid):
+    if pid < len(HANDCRAFTED):
+        p = HANDCRAFTED[pid]
+        return dict(id=pid, arrays=list(p['arrays']), groups=p['groups'], env=p.get('env', {}))
     t = Tape(POOL_SEED + pid)
     arrays = ['f', 'g', 'k'][:t.wchoice([(1, 2), (2, 5), (3, 3)])]
     groups = []
@@ -147,9 +177,12 @@ def _scenario(t, pid, sim_override=None):
     prog = program(pid)
     dim = t.choice([1, 1, 2])
     arrays = {}
+    hint = prog.get('env') or {}
     for a, name in enumerate(prog['arrays']):
         n = t.choice([3, 5, 8, 12, 20])
         nghost = t.choice([0, 0, 2, 4])
+        if 'n' in hint:
+            n, nghost = int(hint['n']), int(hint['nghost'])
         pts = []
         for i in range(n + nghost):
             pts.append([round(0.1 * t.int(0, 12) + 0.013 * a + 0.0007 * i, 6), round(0.1 * t.int(0, 3), 6) if dim == 2 else 0.0,
@@ -158,7 +191,8 @@ def _scenario(t, pid, sim_override=None):
                             c_stop=t.choice([2, 3, 4, 8, 30]))
     nconv = sum(1 for g in _all_groups(prog) for e in g['eqs'] if e[0] == 'TConv')
     return dict(program=pid, prog=prog, dim=dim, arrays=arrays, cond=[int(t.bool(0.7)) for _ in range(24)],
-                thresh=[t.choice([0.0, 300000.0, 700000.0, 950000.0, 999000.0, 2000000.0]) for _ in range(max(1, nconv))],
+                thresh=(list(hint['thresh']) if ('thresh' in hint and t.bool(0.6)) else
+                        [t.choice([0.0, 300000.0, 700000.0, 950000.0, 999000.0, 2000000.0]) for _ in range(max(1, nconv))]),
                 t=t.choice([0.0, 0.125, 0.5, 1.0]), dt=t.choice([0.0625, 0.125, 0.25]), dx=t.choice([0.0, 0.02, 0.05]),
                 periodic=int(t.bool(0.3)),
                 sim=int(t.bool(0.5)) if sim_override is None else sim_override, sched_seed=t.int(0, 1 << 30), threads=t.choice([2, 3, 4]))
